@@ -22,6 +22,6 @@ SumBounded(sc) == SumInts(sc, 1) <= MaxScaled
 OrderPreservingBig(ps, sc) == \A i, j \in 1..Len(ps) : Leq(ps[i], ps[j]) => (sc[i] <= sc[j])
 \* s = floor(p * 65535 / t)  <=>  s * t <= 65535 * p < (s + 1) * t
 IsFloorScale(p, t, s) == /\ s >= 0 /\ s <= MaxScaled
-                         /\ Leq(MulSmall(t, s), MulSmall(p, MaxScaled))
-                         /\ Less(MulSmall(p, MaxScaled), MulSmall(t, s + 1))
+                         /\ LeqK(t, s, p, MaxScaled)
+                         /\ LessK(p, MaxScaled, t, s + 1)
 =============================================================================
